@@ -9,8 +9,12 @@ Static clauses:
   S-PREDICATE   pick_single selects with `contains_total(target)`; pick_many returns the empty set unless
                 `pending.is_empty_or_negative()` (both strategies; the naive one under its feature in the thorough tier)
   S-FABRICATE   strategies return only UTxOs they were given (shared with C04)
-Not decided (not applicable to this family): completeness - "finds a match if one exists" depends on the greedy algorithm's
-behaviour over all stores - and the correctness of contains_total / contains_some as orders.
+  S-TOPUP       where take(Some(n)) tops the candidates up from the wider set, every path that skips the top-up passes a test
+                of the window n: a skip for another reason (`best.is_empty()`) leaves a query whose constraints are met by
+                different UTxOs without candidates.  This is one *necessary condition* of the completeness clause, not more
+  S-LATTICE / C-ORDER  see E16 / E13 (subset lattice; contains_total and is_empty_or_negative as orders)
+Not decided (not applicable to this family): completeness as such - "finds a match if one exists" depends on the greedy
+algorithm's behaviour over all stores.
 """
 import re
 
